@@ -88,6 +88,8 @@ func genCandidate(a *refcodec.API, ver int16, variant string, seed int) (c candi
 				recs = fetchRecords(1)
 			case "fetch-m2":
 				recs = fetchRecords(2)
+			case "aligned":
+				recs = fetchRecords(int8(1 + seed%2))
 			default:
 				recs = fetchRecords(-1) // big frames: no records
 			}
@@ -112,6 +114,9 @@ func genCandidate(a *refcodec.API, ver int16, variant string, seed int) (c candi
 			return nil
 		}
 	}
+	if variant == "aligned" {
+		align(o.body, "")
+	}
 	if variant == "big" {
 		if !inflate(a.Resp, ver, o.body) {
 			return candidate{}, errNoArray
@@ -122,6 +127,44 @@ func genCandidate(a *refcodec.API, ver int16, variant string, seed int) (c candi
 		return candidate{}, err
 	}
 	return candidate{fr, fields, o.body}, nil
+}
+
+// align rewrites a generated response body so that it answers the requests of the Transport / Client units: topic "t",
+// partitions numbered from 0, group "g", no error codes.  The Client methods then take their success paths through the
+// (mutated) arrays instead of stopping at "not what I asked for".
+func align(v any, parent string) {
+	switch x := v.(type) {
+	case map[string]any:
+		for k, e := range x {
+			switch {
+			case k == "Topic" || k == "TopicName" || (k == "Name" && parent == "Topics"):
+				if _, ok := e.(string); ok {
+					x[k] = "t"
+				}
+			case k == "GroupID":
+				if _, ok := e.(string); ok {
+					x[k] = "g"
+				}
+			case k == "ErrorCode":
+				if _, ok := e.(int64); ok {
+					x[k] = int64(0)
+				}
+			default:
+				align(e, k)
+			}
+		}
+	case []any:
+		for i, e := range x {
+			if m, ok := e.(map[string]any); ok {
+				for _, pk := range []string{"Partition", "PartitionIndex"} {
+					if _, ok := m[pk].(int64); ok {
+						m[pk] = int64(i)
+					}
+				}
+			}
+			align(e, parent)
+		}
+	}
 }
 
 var errNoArray = fmt.Errorf("no top-level array to inflate")
